@@ -33,7 +33,7 @@
 (*           transaction spending I<k>                                      *)
 (*  listener [w, s, tw, m]  watches, seen, number of txid watches, monitor  *)
 (*           m = [h, fund, ds, fo, sb, other]                               *)
-(*  request  [op, link, pow, db, c, kind, pf, att, prev, need, probe]       *)
+(*  request  [op, link, pow, db, t, c, kind, pf, att, prev, need, probe, pq] *)
 (*           (see harness/src/bin/tracker.rs for the concrete meaning)      *)
 (*  K        [interval, maxReorg, trusted, popFirst, keepDecode]            *)
 (*           popFirst:   remove_block pops the header window BEFORE         *)
@@ -71,7 +71,7 @@ NameF(k) == IF k = 1 THEN "F1" ELSE "F2"
 DbStr(d) == CASE d = 0 -> ""
               [] d > 0 -> "+" \o ToString(d)
               [] OTHER -> ToString(d)
-Token(r) == r.c \o DbStr(r.db) \o (IF r.pow = "bad" THEN "!" ELSE "")
+Token(r) == r.c \o DbStr(r.db) \o (IF r.t = "late" THEN "@" ELSE "") \o (IF r.pow = "bad" THEN "!" ELSE "")
 
 \* the listeners see the transactions of the PROOF (compact) or of the streamed block: a compact
 \* proof that omits the matching transactions shows them an empty block
@@ -88,7 +88,10 @@ Accept(s)      == [resp |-> Resp(1, ErrNone), s |-> s]
 Panic(s)       == [resp |-> Resp(2, ErrPanic), s |-> s]
 
 ---------------------------------------------------------------------------
-\* validate_retarget / the bits rule of validate_block; newH is at height h+1
+\* validate_retarget / the bits rule of validate_block; newH is at height h+1.
+\* (The testnet-only "20 minute rule" - a block at the chain's maximum target whose time is more
+\* than 20 minutes after its predecessor's skips these checks - does not apply on the networks
+\* driven here; requests with t = "late" probe exactly that.)
 BitsVerdict(K, h, prevLvl, newLvl) ==
   IF (h + 1) % K.interval = 0
   THEN IF newLvl < 0 THEN ErrBlock                    \* target > chain max
@@ -236,23 +239,26 @@ Dev(r) == B2N(r.link # "tip") + B2N(r.pow # "ok") + B2N(r.db # 0) + B2N(r.pf # "
           + B2N(r.kind \in {"streamOther", "block"}) + B2N(r.att # AllAtt)
           + B2N(r.prev \notin {"-", "right"})
 
-WellFormed(r) == r.kind \in StreamKinds => r.pf \notin {"omit", "badfh"}
+WellFormed(r) == /\ r.kind \in StreamKinds => r.pf \notin {"omit", "badfh"}
+                 /\ r.t = "late" => r.db = -2          \* late blocks return to an easier target
 
 NeedOf(c) == IF Spends(c) = {} THEN <<>> ELSE <<CHOOSE x \in Spends(c) : TRUE>>
 
 RawRequests(Contents, Dbs) ==
-  [op : {"add"}, link : {"tip", "fork"}, pow : {"ok", "bad"}, db : Dbs, c : Contents,
+  [op : {"add"}, link : {"tip", "fork"}, pow : {"ok", "bad"}, db : Dbs, t : {"same", "late"}, c : Contents,
    kind : {"compact", "stream", "streamOther", "block"},
    pf : {"good", "wrongheight", "wrongblock", "badsig", "omit", "badfh"}, att : AttSeqs, prev : {"-"}]
   \cup
-  [op : {"rm"}, link : {"tip"}, pow : {"ok"}, db : {0}, c : {"-"},
+  [op : {"rm"}, link : {"tip"}, pow : {"ok"}, db : {0}, t : {"same"}, c : {"-"},
    kind : {"compact", "stream", "streamOther", "block"},
    pf : {"good", "wrongheight", "wrongblock", "badsig", "omit", "badfh"}, att : AttSeqs,
    prev : {"right", "zerofh", "wrongfh", "wronghdr"}]
 
-Decorate(r) == [op |-> r.op, link |-> r.link, pow |-> r.pow, db |-> r.db, c |-> r.c, kind |-> r.kind,
+Decorate(r) == [op |-> r.op, link |-> r.link, pow |-> r.pow, db |-> r.db, t |-> r.t, c |-> r.c, kind |-> r.kind,
                 pf |-> r.pf, att |-> r.att, prev |-> r.prev, need |-> NeedOf(r.c),
-                probe |-> B2N(Dev(r) = 0 /\ r.c \in {"e", "-"})]
+                \* probe: used as "later correct request"; pq: probes are applied after this
+                \* request when it is refused
+                probe |-> B2N(Dev(r) = 0 /\ r.c \in {"e", "-"}), pq |-> B2N(Dev(r) <= 1)]
 
 Requests(maxDev, Contents, Dbs) ==
   {Decorate(r) : r \in {x \in RawRequests(Contents, Dbs) : Dev(x) <= maxDev /\ WellFormed(x)}}
